@@ -11,7 +11,7 @@ import (
 const (
 	SInt  = "Int"
 	SBool = "Bool"
-	SSeq  = "Seq"
+	SSeq  = "GSeq"
 )
 
 func arrSort(k, v string) string { return "(Array " + k + " " + v + ")" }
@@ -428,7 +428,7 @@ func Mul(a, b *Term) *Term {
 	if a.id > b.id {
 		a, b = b, a
 	}
-	return App("mul", SInt, a, b)
+	return mk("*", SInt, a, b)
 }
 
 // Div/Mod: mathematical (SMT-LIB euclidean) on literals divisors, else opaque
@@ -886,7 +886,7 @@ func (q *Query) SMT(produceModels bool) string {
 		sb.WriteString("(set-option :produce-models true)\n")
 	}
 	sb.WriteString("(set-logic ALL)\n")
-	sb.WriteString("(declare-sort Seq 0)\n")
+	sb.WriteString("(declare-sort GSeq 0)\n")
 	var names []string
 	for n := range syms {
 		names = append(names, n)
@@ -910,7 +910,7 @@ func (q *Query) SMT(produceModels bool) string {
 	sort.Strings(names)
 	var ln []string
 	for _, n := range names {
-		fmt.Fprintf(&sb, "(declare-fun %s () Seq) ; %q\n", seqLitName(n), n)
+		fmt.Fprintf(&sb, "(declare-fun %s () GSeq) ; %q\n", seqLitName(n), n)
 		ln = append(ln, seqLitName(n))
 	}
 	if len(ln) > 1 {
